@@ -6,6 +6,9 @@ pub mod c01;
 pub mod c02;
 pub mod c05;
 pub mod c06;
+pub mod c07;
+pub mod c09;
+pub mod c10;
 pub mod lines;
 
 use engine::{Ctx, Tier, Verdict, Worker};
@@ -18,6 +21,9 @@ pub fn run_property(id: &str, ctx: &Ctx) -> bool {
         "C02" => c02::run(ctx),
         "C05" => c05::run(ctx),
         "C06" => c06::run(ctx),
+        "C07" => c07::run(ctx),
+        "C09" => c09::run(ctx),
+        "C10" => c10::run(ctx),
         _ => return false,
     }
     true
@@ -29,6 +35,9 @@ pub fn replay_property(id: &str, w: &mut Worker, sub: &str, case: &serde_json::V
         "C02" => c02::replay(w, sub, case),
         "C05" => c05::replay(w, sub, case),
         "C06" => c06::replay(w, sub, case),
+        "C07" => c07::replay(w, sub, case),
+        "C09" => c09::replay(w, sub, case),
+        "C10" => c10::replay(w, sub, case),
         _ => None,
     }
 }
